@@ -5,7 +5,7 @@
 
 1. in the agent's worktree (patch applied): test-suite unchanged, demo fails; patch reverted: demo passes
 2. copy patch.diff + demo into /verif/seeded/<seed-id>/
-3. apply the patch to /repo, run `./check P` for each listed property, undo the patch
+3. run `./check P` for each listed property against the worktree (DEP_LOGIC_REPO), leaving /repo untouched
 4. write seeded/<seed-id>/meta.json
 """
 import json
@@ -54,13 +54,15 @@ def main():
     shutil.copy(patch, d / "patch.diff")
     shutil.copy(demo, d / demo.name)
     # 3. against /repo
-    rc, out = sh(f"git -C /repo apply {d / 'patch.diff'}")
+    # the checks read the tree named by DEP_LOGIC_REPO: the agent's worktree with the patch applied (nothing in /repo is touched)
+    rc, out = sh(f"git -C /repo diff --quiet HEAD -- src && git -C {wt} diff HEAD -- src | diff -q - {d / 'patch.diff'}")
     if rc != 0:
-        print("patch does not apply to /repo:", out)
+        print("worktree diff differs from patch.diff or /repo is dirty:", out)
         return 1
+    cenv = dict(os.environ, DEP_LOGIC_REPO=str(wt))
     try:
         for p in props:
-            rc, out = sh(f"./check {p} --tier quick", cwd=ROOT)
+            rc, out = sh(f"./check {p} --tier quick", cwd=ROOT, env=cenv)
             lines = [l for l in out.splitlines() if l.startswith("VIOLATION") or l.startswith("KNOWN-FINDING")]
             replay = None
             for l in lines:
@@ -74,7 +76,6 @@ def main():
                                 "verdict": [l[:160] for l in lines if l.startswith("VIOLATION")], "what": (replay or "")[:400]})
             print(p, "exit", rc, [l[:120] for l in lines if l.startswith("VIOLATION")], (replay or "")[:200])
     finally:
-        sh("git -C /repo checkout -- .")
         for f in (ROOT / "replays").glob("*.json"):
             f.unlink()
     seen = {r["check"] for r in meta["ran"]}
